@@ -67,7 +67,7 @@ func randField(r *rand.Rand, i int, prefix string) fdef {
 	}
 	switch f.Type {
 	case "string", "pstring", "nullstring":
-		switch r.Intn(7) {
+		switch r.Intn(8) {
 		case 0:
 			f.Tags = append(f.Tags, "size:64")
 		case 1:
@@ -80,9 +80,11 @@ func randField(r *rand.Rand, i int, prefix string) fdef {
 			f.Tags = append(f.Tags, "type:varchar(32)")
 		case 5:
 			f.Tags = append(f.Tags, "comment:a comment")
+		case 6:
+			f.Tags = append(f.Tags, "type:text", "default:abc")
 		}
 	case "int64", "int32", "uint", "pint":
-		switch r.Intn(6) {
+		switch r.Intn(7) {
 		case 0:
 			f.Tags = append(f.Tags, "default:5")
 		case 1:
@@ -91,10 +93,25 @@ func randField(r *rand.Rand, i int, prefix string) fdef {
 			f.Tags = append(f.Tags, "check:"+f.Col+" >= 0")
 		case 3:
 			f.Tags = append(f.Tags, "default:null")
+		case 4:
+			if f.Type != "pint" && f.Type != "uint" {
+				f.Tags = append(f.Tags, "type:integer", "default:7")
+			}
 		}
 	case "bool":
-		if r.Intn(3) == 0 {
+		switch r.Intn(8) {
+		case 0:
 			f.Tags = append(f.Tags, "default:true")
+		case 1:
+			f.Tags = append(f.Tags, "default:false")
+		case 2:
+			f.Tags = append(f.Tags, "type:boolean", "default:1")
+		case 3:
+			f.Tags = append(f.Tags, "type:boolean", "default:0")
+		case 4:
+			f.Tags = append(f.Tags, "type:boolean")
+		case 5:
+			f.Tags = append(f.Tags, "default:1")
 		}
 	case "float64":
 		switch r.Intn(4) {
@@ -102,10 +119,22 @@ func randField(r *rand.Rand, i int, prefix string) fdef {
 			f.Tags = append(f.Tags, "precision:10", "scale:2")
 		case 1:
 			f.Tags = append(f.Tags, "default:1.5")
+		case 2:
+			f.Tags = append(f.Tags, "type:real", "default:2.5")
 		}
 	case "time":
-		if r.Intn(3) == 0 {
+		switch r.Intn(5) {
+		case 0:
 			f.Tags = append(f.Tags, "autoCreateTime")
+		case 1:
+			// (SQLite cannot ADD a column with a non-constant default: v1 fields only)
+			if prefix == "A" {
+				f.Tags = append(f.Tags, "default:CURRENT_TIMESTAMP")
+			}
+		case 2:
+			if prefix == "A" {
+				f.Tags = append(f.Tags, "type:datetime", "default:current_timestamp")
+			}
 		}
 	}
 	if f.Type != "bytes" && !strings.Contains(f.Col, " ") {
